@@ -84,8 +84,9 @@ func (fc *failClosed) edgeFn(fl *Flow) func(b *cfg.Block, i int, s State) State 
 				continue
 			}
 			// the error variable must have been assigned from a primitive call in this very block
-			for k := len(b.Nodes) - 1; k >= 0; k-- {
-				as, ok := b.Nodes[k].(*ast.AssignStmt)
+			nodes := fl.condNodes(b)
+			for k := len(nodes) - 1; k >= 0; k-- {
+				as, ok := nodes[k].(*ast.AssignStmt)
 				if !ok {
 					continue
 				}
@@ -360,8 +361,9 @@ func (c *Ctx) successDominates(fl *Flow, target ast.Node, isGate func(call *ast.
 				if obj == nil {
 					continue
 				}
-				for k := len(b.Nodes) - 1; k >= 0; k-- {
-					as, ok := b.Nodes[k].(*ast.AssignStmt)
+				nodes := fl.condNodes(b)
+				for k := len(nodes) - 1; k >= 0; k-- {
+					as, ok := nodes[k].(*ast.AssignStmt)
 					if !ok {
 						continue
 					}
@@ -770,7 +772,7 @@ func ruleC08VerifyBeforeUse(c *Ctx) {
 							if !(be.Op == token.EQL && ft.Pos || be.Op == token.NEQ && !ft.Pos) {
 								continue
 							}
-							for _, nd := range b.Nodes {
+							for _, nd := range fl.condNodes(b) {
 								if as, ok := nd.(*ast.AssignStmt); ok && len(as.Rhs) == 1 {
 									if call, ok := ast.Unparen(as.Rhs[0]).(*ast.CallExpr); ok && isCheck(call) {
 										return st &^ pending
